@@ -889,6 +889,13 @@ def AA_4(dul: "DULServiceProvider") -> str:
     except Exception:
         pass
 
+    # Issue A-P-ABORT indication primitive.
+    # Must be queued before the DIMSE provider is woken so that a user thread
+    #   waiting on a response sees the abort rather than a DIMSE timeout
+    primitive = A_P_ABORT()
+    primitive.provider_reason = 0x00
+    dul.to_user_queue.put(primitive)
+
     assoc = dul.assoc
     assoc.dimse.msg_queue.put((None, None))
 
@@ -896,10 +903,6 @@ def AA_4(dul: "DULServiceProvider") -> str:
     conn_info = cast(AddressInformation, remote.address_info).as_tuple
     evt.trigger(dul.assoc, evt.EVT_CONN_CLOSE, {"address": conn_info})
 
-    # Issue A-P-ABORT indication primitive.
-    primitive = A_P_ABORT()
-    primitive.provider_reason = 0x00
-    dul.to_user_queue.put(primitive)
     dul.kill_dul()
 
     return "Sta1"
